@@ -52,11 +52,15 @@ SRV_PATHS = ['/', '/a', '/a/b', '/ab', '/x/1/y', '/index.html', '/b', '/q/c', '/
              '/a/b/c', '/x.html?y', '/api/users']
 
 
-def render_conf(rng, default, hosts):
+def render_conf(rng, default, hosts, cache=False):
     """default: [( [patterns], kind, ident )]; hosts: [(pattern, routes)] -> configuration text"""
     ind = lambda d: ' ' * (4 * d)
     out = ['server {', ind(1) + 'address "127.0.0.1"', ind(1) + 'port 8080', ind(1) + 'threads 8', ind(1) + 'log {',
            ind(2) + 'level "error"', ind(2) + 'console false', ind(1) + '}']
+    if cache:
+        # the response cache is keyed by (path, host): with it on, the same path asked of different hosts must still be
+        # answered by each host's own route (the model has no cache: C16_cache_transparent)
+        out += [ind(1) + 'cache {', ind(2) + 'size 1M', ind(2) + 'time 60', ind(1) + '}']
 
     def routes(rs, d):
         for r in rs:
@@ -168,11 +172,13 @@ def server_part(ctx):
             return rs
         default = mk_routes('d')
         hosts = [(p, mk_routes('h%d' % i)) for i, p in enumerate(rng.sample(SRV_HOST_PATS, rng.randint(0, 3)))]
-        conf = render_conf(rng, default, hosts)
+        conf = render_conf(rng, default, hosts, cache=rng.random() < 0.5)
         fixtures = ['%s:%s' % (hx('f_%s.txt' % ident), hx('F ' + ident)) for rs in [default] + [r for _, r in hosts]
                     for _, kind, ident, _up in rs if kind == 'file']
         # plain requests, then a few WebSocket upgrade requests (each tunnel keeps a worker of the real server busy)
+        same = rng.choice(SRV_PATHS)                 # one path asked of every host in turn, twice
         reqs = [(rng.choice(SRV_HOSTS), rng.choice(SRV_PATHS), False) for _ in range(8)] + \
+               [(h, same, False) for h in rng.sample(SRV_HOSTS, 5)] * 2 + \
                [(rng.choice(SRV_HOSTS), rng.choice([p_ for p_ in SRV_PATHS if '?' not in p_]), True) for _ in range(3)]
         lines.append('srv %s %s %s' % (hx(conf), ','.join(fixtures) or '-',
                                        ','.join('%s:%s:-:-:-:%s' % ('-' if h is None else hx(h), hx(t), 'ws' if w else '-') for h, t, w in reqs)))
